@@ -87,7 +87,10 @@ def gen_case(rng, gens=GENERATORS, max_total=6):
             vals = [rng.choice([0, 0.1, 0.2, 0.5, 1, 1, 2, 5]) if rng.random() < 0.35 else rng.choice([0.2, 0.5, 1, 2, 3]) for _ in slates[s]]
             if not any(v > 0 for v in vals):
                 vals[rng.randrange(len(vals))] = 1
-            intervals[b][s] = dict(zip(slates[s], vals))
+            items = list(zip(slates[s], vals))
+            if rng.random() < 0.5:
+                rng.shuffle(items)  # the interval's key order need not be the slate's listing order
+            intervals[b][s] = dict(items)
     case.update(slates=slates, props=props, cohesion=cohesion, intervals=intervals)
     n = sum(sizes)
     if gen == "short_name_PlackettLuce":
